@@ -2,7 +2,7 @@
 from itertools import product
 
 from .fx import FxBuilder, tree_paths, walk_tree, unstamp, path_value
-from .expr import show
+from .expr import show, walk
 from .apirules import API_STOP, PathFacts, VALIDATE, norm_val, _strip_payload
 
 SAN = "owlchess::moves::san::"
@@ -295,3 +295,59 @@ def from_move_rule(ctx, facts, rid):
             why = "capture flag is not `destination occupied`: %s" % show(unstamp(fields["is_capture"]))
     r.check(ok, "Data::from_move/simple", "Data::from_move for a piece move: %s" % why, site=ctx.site(fn),
             what="piece moves: hints from AmbigDetector over san_candidates(b, piece, dst); capture = dst occupied")
+
+
+def text_faithful_rule(ctx, facts, rid):
+    """The squares of the move that into_move returns are those written in the SAN text."""
+    r = ctx.rule(rid, "san::Data::into_move: a move built directly from the data takes its squares from the data (never from a search of the "
+                      "board), and only the variants that name both squares may bypass the hint-honouring searcher")
+    fn = facts.fns.get(SAN + "Data::into_move")
+    if fn is None:
+        r.anchor_missing(SAN + "Data::into_move")
+        return
+    variants = {v["discr"]: v["name"] for v in facts.adts[SAN + "Data"]["variants"]}
+    direct_ok = {"Uci", "Castling", "PawnMove", "PawnCapture"}       # these spell out destination (and source file) in full
+    stop = set(API_STOP) | GEOM_STOP | {SAN + "AmbigSearcher::new", SAN + "AmbigSearcher::get_move"}
+    fb = FxBuilder(facts, stop=stop)
+    tree = fb.tree(fn)
+    seen = 0
+    for events, choices in tree_paths(tree):
+        last = events[-1]
+        if last[0] != "ret":
+            continue
+        pf = PathFacts(events, choices)
+        ret = unstamp(pf.ret)
+        arm = None
+        for e in events:
+            if e[0] == "branch" and show(unstamp(e[1])) == "discr(self)" and e[2] != "else":
+                arm = variants.get(e[2][0], str(e[2][0]))
+        if ret[0] == "agg" and ret[1] == "core::result::Result" and ret[2] == "Ok":
+            seen += 1
+            mv = norm_val(ret[3][0])
+            if not r.check(arm in direct_ok, "into_move/%s/direct" % arm,
+                           "san::Data::into_move builds the move of a %s directly instead of searching the candidates that match the written "
+                           "origin hints: the hints are ignored" % arm, site=ctx.site(fn), what="%s: direct construction allowed" % arm):
+                continue
+            # the squares handed to the constructor
+            ctor = mv
+            while ctor[0] in ("payload", "downcast") or (ctor[0] == "call" and ctor[1].endswith(("unwrap", "branch"))):
+                ctor = ctor[1] if ctor[0] != "call" else ctor[2][0]
+            if ctor[0] == "call" and ctor[1] == "owlchess::moves::base::Move::new":
+                args = ctor[2][-2:]
+            elif ctor[0] == "call" and ctor[1] in ("owlchess::moves::base::Move::from_castling", "owlchess::moves::uci::Move::into_move"):
+                args = ()
+            else:
+                r.fail("into_move/%s/ctor" % arm, "san::Data::into_move (%s) returns Ok(%s): not a recognised constructor" % (arm, show(mv)[:120]),
+                       site=ctx.site(fn))
+                continue
+            bad = None
+            for a in args:
+                for x in walk(unstamp(a)):
+                    if x[0] == "call" and x[1].startswith("owlchess::board::") and not x[1].endswith("::side"):
+                        bad = show(x)[:80]
+                    if x[0] in ("ld", "field") and "b.r." in show(x) and not show(x).endswith("b.r.side"):
+                        bad = show(x)[:80]
+            r.check(bad is None, "into_move/%s/squares" % arm,
+                    "san::Data::into_move (%s): a square of the returned move is read from the board (%s) instead of the text" % (arm, bad),
+                    site=ctx.site(fn), what="%s: squares are functions of the text and the side to move" % arm)
+    r.floor(seen, 4, "directly constructed Ok paths of into_move")
